@@ -26,6 +26,7 @@ CONSTANTS
   Weak_DecoderAcceptsBadCRC = FALSE
   Weak_PruneNewest = FALSE
   Weak_IndexWidth3Only = TRUE
+  Weak_RecordInTwoGroupWrites = FALSE
   WidthLimit = 2
 INIT Init
 NEXT Next
